@@ -9,6 +9,7 @@ from __future__ import annotations
 
 import ast
 import contextlib
+import dataclasses
 import inspect
 import io
 import json
@@ -76,6 +77,14 @@ class Decl:
     section: str | None = None
     annot_toplevel: bool = False
     annotation: Any = None
+    # how the declaration binds its sources (see inherit_sources):
+    #   section_explicit: the declaration itself fixes the section (Field(config_section=...) written out, or the
+    #                     class statement carries config_section=...)
+    #   bare:             redeclared without any Field() call (`name: T = value`: a new default, nothing else)
+    #   sources_from:     the class up the MRO whose declaration this one keeps its env / file binding from
+    section_explicit: bool = False
+    bare: bool = False
+    sources_from: str | None = None
 
     @property
     def key(self) -> str | None:
@@ -109,9 +118,11 @@ def _class_decls(k: type) -> dict[str, Decl]:
         return eval(compile(ast.Expression(node), "<decl>", "eval"), glob)  # noqa: S307
 
     section = None
+    class_section_explicit = False
     for kw in cdef.keywords:
         if kw.arg == "config_section":
             section = ev(kw.value)
+            class_section_explicit = True
     try:
         hints = typing.get_type_hints(k, include_extras=True)
     except Exception:  # noqa: BLE001
@@ -126,7 +137,7 @@ def _class_decls(k: type) -> dict[str, Decl]:
         if get_origin(ann) is typing.ClassVar:
             continue
         d = Decl(name=name, owner=f"{k.__module__}.{k.__qualname__}", annotation=ann,
-                 annot_toplevel=get_origin(ann) is Annotated)
+                 annot_toplevel=get_origin(ann) is Annotated, bare=not isinstance(st.value, ast.Call))
         if isinstance(st.value, ast.Call):
             try:
                 fn = ev(st.value.func)
@@ -148,9 +159,34 @@ def _class_decls(k: type) -> dict[str, Decl]:
                 fsec = ev(kws["config_section"]) if "config_section" in kws else None
                 if d.gallia_field:
                     d.section = fsec if fsec is not None else section
+                    d.section_explicit = "config_section" in kws or class_section_explicit
         out[name] = d
     _DECL_CACHE[k] = out
     return out
+
+
+def inherit_sources(prev: Decl | None, new: Decl) -> Decl:
+    """The declaration of option `new.name` as seen by a command whose config class REdeclares it (`new`) below
+    an inherited declaration (`prev`, already merged along the MRO).
+
+    Ground truth for "the matching key of gallia.toml" that does not come from the tree's own field metadata:
+    the section is fixed by the class that introduces the option as file-configurable.  A subclass that
+    redeclares the option (another default, another help text) keeps `S.<name>` -- that is the key --template
+    prints for this option name and the key every sibling command reads -- unless the redeclaration ITSELF says
+    otherwise: config_section= written out in the Field() call (whatever it evaluates to), config_section= on the
+    class statement, or hidden=True.  A redeclaration without any Field() call (`name: T = value`) changes the
+    default only and keeps the environment binding as well.  A redeclaration through another Field function
+    (pydantic's / pydantic_argparse's) is a deliberate choice of a field kind: nothing is inherited (silent)."""
+    if prev is None or prev.section is None or not prev.gallia_field or prev.hidden:
+        return new
+    if new.hidden or new.section_explicit:
+        return new
+    origin = prev.sources_from or prev.owner
+    if new.gallia_field and new.section is None:
+        return dataclasses.replace(new, section=prev.section, sources_from=origin)
+    if new.bare:
+        return dataclasses.replace(new, gallia_field=True, section=prev.section, sources_from=origin)
+    return new
 
 
 def declarations(cfg_type: type) -> dict[str, Decl]:
@@ -158,7 +194,8 @@ def declarations(cfg_type: type) -> dict[str, Decl]:
     for k in reversed(cfg_type.__mro__):
         if k in (object, BaseModel) or not isinstance(k, type):
             continue
-        out.update(_class_decls(k))
+        for name, d in _class_decls(k).items():
+            out[name] = inherit_sources(out.get(name), d)
     return out
 
 
